@@ -800,7 +800,7 @@ SKIP_TOKENS = ["testutil", "__file__", "is_compiled", "getrefcount", "traceback"
                "__del__", "weakref", "monkey", "setattr", "__mypyc", "mypyc_attr", "import native", "RecursionError", "globals()",
                "locals()", "__annotations__", "pickle", "copy", "librt", "time", "random", "id(", "hash(", "__name__", "__module__",
                "__qualname__", "__doc__", "singledispatch", "dataclass", "attr", "Protocol", "NamedTuple", "TypedDict", "Enum",
-               "__slots__", "del ", "vec", "async ", "await ", "stderr", "subprocess", "os.", "bytearray", "memoryview", "float", "math"]
+               "__slots__", "del ", "vec", "async ", "await ", "stderr", "subprocess", "os.", "bytearray", "memoryview", "float", "math", "Final"]
 
 
 def select_run_cases(repo: str) -> tuple[list[dict], dict[str, int]]:
@@ -814,7 +814,7 @@ def select_run_cases(repo: str) -> tuple[list[dict], dict[str, int]]:
             fnames = [x[0] for x in files]
             if len(files) > 1 or (files and fnames != ["driver.py"]):
                 why = "extra files"
-            elif any(t in name for t in ("_separate", "_multimodule", "_librt", "_experimental", "_python3_", "_64bit", "_32bit")):
+            elif any(t in name for t in ("_separate", "_multimodule", "_librt", "_experimental", "_python3_", "_64bit", "_32bit", "Fail")):
                 why = "tagged name"
             else:
                 text = main + "\n" + "\n".join(x[1] for x in files)
